@@ -111,12 +111,17 @@ fn prepare(env: &Env, with_edge: bool) -> Prepared {
     let vms = base
         .iter()
         .map(|b| {
-            // preset nc = the registers as left by the program preludes (letters are benign there)
-            (0..=nc)
+            // preset nc = the registers as left by the program preludes (letters are benign
+            // there); preset nc+1 = the same after `cfsi 64` ($sp == $ssp, as LDC requires)
+            (0..=nc + 1)
                 .map(|k| {
                     let mut v = b.clone();
                     if k < nc {
                         apply_preset(&mut v, k);
+                    }
+                    if k == nc + 1 {
+                        let o = of_exec(catch_any(|| v.instruction::<_, false>(raw_of(op::cfsi(64)))));
+                        assert_eq!(o, Obs::Ok("proceed"), "cfsi 64");
                     }
                     v
                 })
@@ -290,6 +295,7 @@ fn explore_single(ctx: &Ctx, env: &Env) {
         (0..nc).collect()
     };
     presets.push(nc);
+    presets.push(nc + 1);
     let np = presets.len() as u64;
     let nr = raws.len() as u64;
     let total = 3 * np * nr;
